@@ -109,31 +109,50 @@ where
 
     fn next(&mut self) -> Option<Self::Item> {
         let data = self.data.take()?;
-        let mut last = false;
+        let len = data.bytes().len();
 
-        let next_offset = match L::from_bytes(data.bytes()) {
-            Ok(x) => x.to_usize().unwrap(),
+        let next = match L::from_bytes(data.bytes()) {
+            Ok(x) => *x,
             Err(e) => return Some(Err(e.offset(self.pos))),
         };
 
-        if next_offset == 0 {
+        if next == L::zero() {
             return None;
-        } else if next_offset == L::max_value().to_usize().unwrap() {
-            last = true;
         }
+        let last = next == L::max_value();
+
+        // Extent of this item: up to the next slot, or all the remaining bytes for the last one.
+        let item_len = if last {
+            len
+        } else {
+            match next.to_usize() {
+                Some(n) if n <= len => n,
+                _ => {
+                    return Some(Err(Error {
+                        kind: ErrorKind::InsufficientSize,
+                        pos: self.pos,
+                    }))
+                }
+            }
+        };
 
         let payload_offset = FlexVec::<T, L>::OFFSET_SIZE;
-        if payload_offset > next_offset {
+        if payload_offset > item_len {
             return Some(Err(Error {
-                kind: ErrorKind::InsufficientSize,
+                // More bytes can only help the last item, otherwise the stored offset itself is wrong.
+                kind: if last {
+                    ErrorKind::InsufficientSize
+                } else {
+                    ErrorKind::InvalidData
+                },
                 pos: self.pos + payload_offset,
             }));
         }
 
         let data = if !last {
-            let (data, next_data) = data.split(next_offset);
+            let (data, next_data) = data.split(item_len);
             self.data = Some(next_data);
-            self.pos += next_offset;
+            self.pos += item_len;
             data
         } else {
             data
